@@ -360,6 +360,7 @@ def main():
     vio_lines = []
     os.makedirs(os.path.join(VERIF, "replays"), exist_ok=True)
     seen_classes = set()
+    non_replaying = []
     for v in violations:
         if v["class"] in seen_classes:
             continue
@@ -370,16 +371,23 @@ def main():
         # verify the replay in a fresh process before reporting
         o, _ = replay_once(binp, cfg, work, path, tag="verify-%s" % v["seed"])
         if o["data"] is None or not o["data"].get("replay_ok"):
+            # never reported as a violation; other classes found in this run may replay exactly (e.g. state that
+            # leaks from one run of a worker process into the next shows up in a run that cannot replay alone and,
+            # in a scenario made for it, in one that can)
             print("violation class %r (seed %s) did not replay exactly: %s" % (
                 v["class"], v["seed"], (o["data"] or {}).get("replay_detail")))
-            print("  original detail: %s" % v["detail"])
-            infra("non-replaying violation; replay file kept at %s" % path)
+            print("  original detail: %s" % v["detail"][:1500])
+            non_replaying.append(path)
+            seen_classes.discard(v["class"])
+            continue
         vio_lines.append("VIOLATION property=%s replay=%s" % (report, path))
         vio_lines.append("  class: %s" % v["class"])
         vio_lines.append("  detail: %s" % v["detail"][:2000])
         vio_lines.append("  minimised tape: %d of %d entries" % (len(v["tape"]), v.get("original_tape_len", 0)))
         exit_code = 1
 
+    if non_replaying and exit_code == 0:
+        infra("non-replaying violation(s) and no exactly replaying one; replay files kept: %s" % ", ".join(non_replaying[:3]))
     known_lines = []
     for k in known:
         n = agg["known"].get(k["id"], 0)
